@@ -25,9 +25,9 @@ Definition elab_str (dosp : spacefn) (s : list N) (st : est) : err (pexp * est) 
         | Some rec =>
           if has (rec_props rec) ptype_Ascii then
             if has (rec_props rec) ptype_Alphabetic then
-              match tocasefold ucd b with
-              | Some f => OK (seqp sk (PInstr (IMatchSet (sort_and_optimize (push_rune (push_rune rs_empty b) f)))), st1)
-              | None => Err e_table
+              match tolower ucd b, toupper ucd b with
+              | Some l, Some u => OK (seqp sk (PInstr (IMatchSet (sort_and_optimize (push_rune (push_rune (push_rune rs_empty b) l) u)))), st1)
+              | _, _ => Err e_table
               end
             else OK (seqp sk (PInstr (IMatchOctet b)), st1)
           else match utf8_tocasefold ucd s with Some f => OK (seqp sk (PInstr (IMatchCf f)), st1) | None => Err e_table end
